@@ -33,8 +33,10 @@ type tcpConn struct {
 	local, remote int
 }
 
-func (c tcpConn) LocalAddr() net.Addr  { return &net.TCPAddr{IP: net.IPv4(127, 0, 0, 1), Port: c.local} }
-func (c tcpConn) RemoteAddr() net.Addr { return &net.TCPAddr{IP: net.IPv4(127, 0, 0, 1), Port: c.remote} }
+func (c tcpConn) LocalAddr() net.Addr { return &net.TCPAddr{IP: net.IPv4(127, 0, 0, 1), Port: c.local} }
+func (c tcpConn) RemoteAddr() net.Addr {
+	return &net.TCPAddr{IP: net.IPv4(127, 0, 0, 1), Port: c.remote}
+}
 
 type link struct {
 	ends     [4]net.Conn // iEnd, pI, pA, aEnd
@@ -130,7 +132,7 @@ type Stamp struct {
 	Rx    bool // false: the frame left an engine; true: the frame was handed to an engine
 	FromI bool // the frame travels from the initiator to the acceptor
 	Type  string
-	HB    int // HeartBtInt(108) of a Logon
+	HB    int    // HeartBtInt(108) of a Logon
 	ID    string // TestReqID(112)
 	Seq   int
 	Dup   bool
@@ -366,9 +368,11 @@ func (a *app) OnLogout(quickfix.SessionID) {
 	a.on = false
 	a.mu.Unlock()
 }
-func (a *app) ToAdmin(*quickfix.Message, quickfix.SessionID)                           {}
-func (a *app) ToApp(*quickfix.Message, quickfix.SessionID) error                       { return nil }
-func (a *app) FromAdmin(*quickfix.Message, quickfix.SessionID) quickfix.MessageRejectError { return nil }
+func (a *app) ToAdmin(*quickfix.Message, quickfix.SessionID)     {}
+func (a *app) ToApp(*quickfix.Message, quickfix.SessionID) error { return nil }
+func (a *app) FromAdmin(*quickfix.Message, quickfix.SessionID) quickfix.MessageRejectError {
+	return nil
+}
 func (a *app) FromApp(m *quickfix.Message, _ quickfix.SessionID) quickfix.MessageRejectError {
 	id, _ := m.Body.GetString(11)
 	a.mu.Lock()
@@ -392,6 +396,7 @@ func (a *app) FromApp(m *quickfix.Message, _ quickfix.SessionID) quickfix.Messag
 	}
 	return nil
 }
+
 // SetBusy: the next FromApp keeps the session's goroutine busy for d.
 func (a *app) SetBusy(d time.Duration) {
 	a.mu.Lock()
